@@ -24,7 +24,7 @@ RULE = ("fault enumeration: every workload of the corpus (parse of documents wit
         "KEY_IS_NEW, CONSTANT_KEY) at the load-factor boundaries; set_string growing / shrinking / emptying from inline and from "
         "external storage; deep copy; serialization under PLAIN / SPACED / PRETTY / PRETTY_TAB / NOSLASHESCAPE / COLOR; "
         "json_pointer_set / setf; json_patch_apply in both calling conventions; printbuf / array_list / lh_table / tokener "
-        "constructors) is run fault-free to count its N allocator calls, then once per k = 1..N with exactly the k-th call failing, "
+        "constructors; plus seeded random trees / documents, far more in the thorough tier) is run fault-free to count its N allocator calls, then once per k = 1..N with exactly the k-th call failing, "
         "once with k = N+1, and (thorough) with sampled pairs k1 < k2; one evaluation = one (workload, fault) line; non-trivial = a "
         "fault was injected inside the window (coverage tags workload + fault + outcome); distinct = distinct line text")
 ASSUMPTIONS = [
@@ -85,8 +85,10 @@ MANIFEST = dict(
         "serialized text = none or the fault-free text. For the modelled functions the same runs are the correspondence check: the Lean driver "
         "must predict result, number of calls, errno class and the allocator request trace (kind, size, block freed) of every line.",
    note="Known finding C08-serializer-unchecked-append (the emitters ignore failed appends: truncated text instead of NULL) is modelled "
-        "byte for byte (Model/AllocSer.lean, theorem serialize_truncates) and excluded by tag; any other leak / crash / wrong result in a "
-        "serialization workload is still a violation. Trusted: Lean kernel + propext/Classical.choice/Quot.sound; the hand-written model (tied "
+        "byte for byte (Model/AllocSer.lean; serialize_truncates is the decide-checked counter-example, serialize_complete_partial proves "
+        "that without a dropped append the call returns NULL or the complete text, for every value / flag set / oracle) and excluded by tag; "
+        "any other leak / crash / wrong result in a serialization workload - and any truncation the model does not predict byte for byte - "
+        "is still a violation. Trusted: Lean kernel + propext/Classical.choice/Quot.sound; the hand-written model (tied "
         "to the code by 11 shape facts regenerated from the source by tools/extract/st_alloc.py, 11 sizeof constants, and the per-call request "
         "traces of the correspondence run); harness/alloc.c (allocator interposition, block tracking, dumps); ASan/UBSan/LSan. Assumed: "
         "only the library's own allocator calls fail (not libc-internal ones such as newlocale in json_tokener_parse_ex); a failing call "
